@@ -49,7 +49,23 @@ def f12_witness(ctx):
     return hit
 
 
-def hostile_segments(rng, quick):
+def dc_window(rate):
+    """the DC blocker's window in samples, as the receiver computes it in binary32: max(1, (0.38f32 * (rate as f32 / 520.83f32)) as usize)"""
+    import struct
+    f32 = lambda x: struct.unpack("f", struct.pack("f", x))[0]
+    return max(1, int(f32(f32(0.38) * f32(f32(rate) / f32(520.83)))))
+
+
+def staircase(rng, rate, secs=None):
+    """a slowly rising near-DC level: the sample value steps up by a fraction of the running sum's ulp once per DC-blocker window, so
+    every update of the running sum rounds the same way (finding F13: before the repair the rounding residue was never aged off)"""
+    start, step = rng.choice([(700000, 0.5625), (700000, 0.5625), (-700000, -0.5625), (32000, 0.03125)])
+    if secs is None:
+        secs = rng.choice([3.0, 6.0, 10.0])
+    return "R%.1f:%g:%g:%d" % (secs, start, step, dc_window(rate))
+
+
+def hostile_segments(rng, quick, rate=22050):
     dur = lambda lo, hi: lo + rng.below(int((hi - lo) * 100) + 1) / 100.0
     newH = lambda: samegen.gen_header(rng, nloc=rng.choice([1, 2, 5]))   # a fresh header each time: never two identical valid bursts
     big = rng.choice([32767, 100000, 1 << 20])
@@ -77,6 +93,7 @@ def hostile_segments(rng, quick):
         # of the first version of this generator)
         "prefix-then-invalid": lambda: "B" + hx(b"\xab" * 16 + (lambda pre, k: pre[:k] + bytes([pre[k] ^ 0x40]) + pre[k + 1:])(b"ZCZC", rng.range(1, 3))
                                                + newH()[4:rng.range(4, 30)]),
+        "dc-staircase": lambda: staircase(rng, rate),
         "short-bursts-pair": lambda: (lambda b: "B%s,S1.00,B%s" % (b, b))(hx(b"\xab" * 16 + b"ZCZC" + bytes([rng.choice([0x03, 0x80, 0x1f])]))),
     }
     names = sorted(kinds)
@@ -98,11 +115,20 @@ def run(ctx):
     for j in range(n):
         rate = rng.choice(rxlib.STD_RATES + [96000]) if rng.chance(3, 4) else rng.range(8000, 96000)
         tx = rxlib.Tx(rng, rate=rate, H=samegen.gen_header(rng, nloc=rng.choice([1, 2, 8])), gap_ht=rng.choice([1.0, 2.5]), lead=0.0)
-        picked, segs = hostile_segments(rng, q)
+        picked, segs = hostile_segments(rng, q, rate)
         gap = 1.0 + rng.below(101) / 100.0
         amp_restore = "A%g" % tx.amp
         script = ",".join(["S0.1"] + segs + ["D%g" % tx.dc, amp_restore, "S%.2f" % gap] + tx.segments()[1:])
         cases.append((picked, tx, gap, script))
+    # the DC blocker must forget (F13): a long near-DC staircase, a gap, then a WEAK clean transmission, at every standard rate
+    drng = rng.fork("dc-staircase")
+    for j, rate in enumerate((rxlib.STD_RATES + [96000]) * (1 if q else 4)):
+        tx = rxlib.Tx(drng, rate=rate, H=samegen.gen_header(drng, nloc=1), gap_ht=1.0, lead=0.0)
+        tx.amp = drng.choice([100, 100, 300, 1000]); tx.dc = 0
+        seg = staircase(drng, rate, secs=(10.0 if q else drng.choice([10.0, 20.0, 30.0])))
+        gap = drng.choice([1.0, 1.5, 5.0])
+        script = ",".join(["S0.1", seg, "D0", "A%g" % tx.amp, "S%.2f" % gap] + tx.segments()[1:])
+        cases.append((["dc-staircase"], tx, gap, script))
     lines = [tx.line(script=script) for (_, tx, _, script) in cases]
     res = rxlib.run_rx(lines)
     ctx.coverage["known_finding_F9_witness_reproduces"] = rxlib.run_f9_witness(ctx, "C10")
@@ -153,6 +179,9 @@ def run(ctx):
         if len(samples) < 3:
             samples.append({"hostile": picked, "gap": gap, "rate": tx.rate, "script_head": script[:160]})
     ctx.coverage["known_finding_F11_witness_reproduces"] = rxlib.run_f11_witness(ctx, "C10")
+    # the two float components whose state outlives a burst, bit for bit against the Flocq model the C10 theorems are about
+    import fdlib
+    ctx.coverage.update(fdlib.correspondence(ctx, rng.fork("float-components"), 64 if q else 1600, 64 if q else 1600, "c10"))
     ctx.coverage["known_finding_F12_witness_reproduces"] = f12_witness(ctx)
     ctx.coverage.update({
         "evaluations": len(cases), "distinct_nontrivial": nontriv,
@@ -165,6 +194,9 @@ def run(ctx):
 
 
 def replay(payload):
+    if payload.get("input", "").startswith(("dcbrun", "agcrun")):
+        import fdlib
+        return fdlib.replay(payload["input"])
     r = rxlib.run_rx([payload["input"]])[0]
     print("impl :", (r.get("impl") or r.get("error"))[-3000:])
     return 0 if r.get("model") == r.get("impl") else 1
